@@ -139,7 +139,8 @@ def op_setocc(cfg, via_setitem=False):
         counts = pick_shape(src, cfg, sup)
         occ, chemorder = sym_state(src, sup, counts)
         install_state(sup, occ, chemorder)
-        ind = src.int('ind', 0, n - 1)
+        # python-style negative indices are documented as safe by the library's own tests (setocc(-1, c)): -k means site n-k
+        ind = src.int('ind', -n, n - 1)
         c = src.int('c', -CBOUND, CBOUND)
         occ0, co0 = snapshot(sup)
         obs = []
@@ -147,12 +148,13 @@ def op_setocc(cfg, via_setitem=False):
         def ob(nm, v, sig=None):
             obs.append(('%s:%s' % (name, nm), v, src.info(sig='setocc:' + (sig or nm), replayer='setocc', extra={'cfg': cfg})))
         declared = core.And(c >= -1, c < sup.Nchem) if src.symbolic else (-1 <= c < sup.Nchem)
-        indc = int(ind)
+        indraw = int(ind)
+        indc = indraw if indraw >= 0 else n + indraw
         try:
             if via_setitem:
-                sup[indc] = c
+                sup[indraw] = c
             else:
-                sup.setocc(indc, c)
+                sup.setocc(indraw, c)
             raised = None
         except IndexError:
             raised = 'IndexError'
@@ -204,9 +206,11 @@ def op_reorder(cfg):
 
         def ob(nm, v):
             obs.append(('%s:%s' % (name, nm), v, src.info(sig='reorder:' + nm, replayer='reorder', extra={'cfg': cfg})))
-        isperm = all(sorted(int(m) for m in cmap) == list(range(len(cmap))) for cmap in mapping)
+        # the caller may hand over FEWER per-species maps than there are species (zip would silently drop the rest)
+        nl = int(src.int('nlists', 0, sup.Nchem))
+        isperm = nl == sup.Nchem and all(sorted(int(m) for m in cmap) == list(range(len(cmap))) for cmap in mapping)
         try:
-            mp = [[int(m) for m in cmap] for cmap in mapping]
+            mp = [[int(m) for m in cmap] for cmap in mapping][:nl]
             r = sup.reorder(mp)
             raised = None
         except ValueError:
@@ -218,7 +222,7 @@ def op_reorder(cfg):
             ob('accepted-only-permutation', isperm)
             ob('post-invariant', invariant(sup, occ1, co1))
             ob('occ-unchanged', harness.exact_eq(occ1, occ0))
-            for c in range(sup.Nchem):
+            for c in range(min(sup.Nchem, len(mp), len(co1))):
                 ob('order-%d' % c, harness.exact_eq(co1[c], [co0[c][mp[c][i]] for i in range(len(mp[c]))]))
             ob('returns-self', r is sup)
         else:
